@@ -21,9 +21,9 @@ MCInit == /\ \E e \in Encs, g \in Grants, k \in Checks :
 
 MCNextX ==
     \/ /\ app.op = "none" /\ app.nops < MaxOps
-       /\ \E a \in AppActions, n \in 0..MaxIn : BeginCall(a, n, n, FALSE) \/ RejectedCall(a, n)
+       /\ \E a \in AppActions, n \in 0..MaxIn : BeginCall(a, n, n, FALSE, 1, "any", FALSE) \/ RejectedCall(a, n)
     \/ /\ app.op # "none"
-       /\ BeginCall(app.op, app.left, app.left, FALSE) \/ RejectedCall(app.op, app.left)
+       /\ BeginCall(app.op, app.left, app.left, FALSE, 1, "any", FALSE) \/ RejectedCall(app.op, app.left)
     \/ InnerStep
     \/ /\ app.nops < MaxOps /\ \E t \in MCTargets : Update(t)
 
